@@ -5,6 +5,7 @@
 package queue
 
 import (
+	"os"
 	"testing"
 	"time"
 
@@ -14,14 +15,22 @@ import (
 )
 
 func configs() []*sched.Config {
+	thorough := os.Getenv("VERIF_TIER") == "thorough"
 	var cfgs []*sched.Config
 	for _, sc := range qh.Scenarios(false) {
 		sc := sc
-		cfgs = append(cfgs, &sched.Config{
+		c := &sched.Config{
 			Name:    sc.FullName(),
 			Horizon: 2,
 			Body:    func(r *sched.Run) { qh.Run(sc, r) },
-		})
+		}
+		// thorough: preemption bound 3 on the cache-size-2 variants of the
+		// scenarios without a Discard thread (bound 3 on everything is ~2*10^8
+		// schedules); bound 2 on all.
+		if thorough && sc.Cap == 2 && !sc.Discard {
+			c.MaxBound = 3
+		}
+		cfgs = append(cfgs, c)
 	}
 	return cfgs
 }
@@ -31,7 +40,7 @@ func TestCheck(t *testing.T) {
 	sched.WorkerMain(cfgs)
 	r := vk.Start("C20", "model_checking", 170*time.Second, 19*time.Minute)
 	sched.RunCheck(r, cfgs, sched.CheckOpts{
-		MaxBound:  vk.Pick(r, 2, 3),
+		MaxBound:  2,
 		JobMillis: vk.Pick(r, 1500, 5000),
 		What:      "all schedules of Run + producers + consensus (+Discard) threads on the real bqueue.Queue up to the preemption bound, per scenario x cache size {2,3} x mode {NonBlocking, Blocking with a 2-tick horizon}",
 		Extra: map[string]any{
